@@ -1153,3 +1153,83 @@ Proof.
   destruct (line_summaries cr c subunits ls) as [|d ds]; [reflexivity|].
   cbn [fold_left]. apply fold_tax_step.
 Qed.
+
+(* ------------------------------------------------------------------------------------------ *)
+(* recalculated summaries are well formed: what a payment merges is inside the merge theorems   *)
+(* ------------------------------------------------------------------------------------------ *)
+Definition shape_rt (r : rate_total) : Prop :=
+  (rt_pct r = None -> rt_sur r = None) /\ (rt_sur r = None -> val (rt_suramount r) = 0).
+Definition wf_shape (t : tax_total) : Prop :=
+  distinct_codes (tt_cats t) /\
+  Forall (fun ct => distinct_groups (ct_rates ct) /\ Forall shape_rt (ct_rates ct)) (tt_cats t).
+
+Lemma rescale_zero_val a e : val a = 0 -> val (rescale a e) = 0.
+Proof.
+  intros H. unfold rescale.
+  destruct (Nat.ltb e (exp a)); [|destruct (Nat.ltb (exp a) e)]; cbn [val]; rewrite ?H.
+  - apply rha_exact; [apply pow10_pos|reflexivity].
+  - reflexivity.
+  - reflexivity.
+Qed.
+
+Lemma rt_recalc_Matches c x y :
+  rt_Matches (rt_round c (rt_calc c x)) (rt_round c (rt_calc c y)) = rt_Matches x y.
+Proof.
+  unfold rt_round, rt_calc, rt_Matches.
+  destruct (rt_pct x) eqn:Ex; destruct (rt_pct y) eqn:Ey;
+    cbn [rt_ext rt_country rt_pct rt_sur]; rewrite ?Ex, ?Ey; reflexivity.
+Qed.
+
+Lemma rt_recalc_wf c r : shape_rt r -> wf_rt c (rt_round c (rt_calc c r)).
+Proof.
+  intros (P & Z). unfold wf_rt, rt_round. cbn [rt_base rt_amount rt_suramount rt_pct rt_sur].
+  rewrite !rescale_exp. repeat split.
+  - unfold rt_calc. destruct (rt_pct r) eqn:E; cbn [rt_pct rt_sur]; [discriminate|].
+    intros _. apply P. reflexivity.
+  - unfold rt_calc. destruct (rt_pct r) eqn:E; cbn [rt_sur rt_suramount]; intros N.
+    + rewrite N. apply rescale_zero_val, Z, N.
+    + apply rescale_zero_val, Z, N.
+Qed.
+
+Lemma calculate_wf cr c t : wf_shape t -> wf_tt c (tt_calculate cr c t).
+Proof.
+  intros (D & F). rewrite tt_calculate_unfold. cbv zeta. unfold wf_tt. cbn [tt_cats tt_sum].
+  rewrite map_map. repeat split.
+  - apply distinct_codes_k. apply map_distinct; [reflexivity|]. apply distinct_codes_k, D.
+  - apply Forall_map. eapply Forall_impl; [|exact F]. intros ct (Dg & Fs).
+    unfold wf_ct, ct_round, ct_calc. cbn [ct_rates ct_amount ct_surcharge]. rewrite map_map.
+    repeat split.
+    + apply distinct_groups_k. apply map_distinct; [intros x y; apply rt_recalc_Matches|exact Dg].
+    + apply Forall_map. eapply Forall_impl; [|exact Fs]. intros r. apply rt_recalc_wf.
+    + apply rescale_exp.
+    + intros s. destruct (snd _); [|discriminate]. intros H. injection H as <-. apply rescale_exp.
+  - apply rescale_exp.
+Qed.
+
+(* the payment's tax summary, component by component, when its documents share the precision c *)
+Lemma payment_tax_componentwise keep cr rates cur c subunits ls out :
+  pay_calc keep cr rates cur c subunits ls = Some out ->
+  let ss := line_summaries cr c subunits ls in
+  Forall (wf_tt c) ss ->
+  match ss with
+  | [] => po_tax out = None
+  | _ :: _ =>
+    exists m, po_tax out = Some m /\ wf_tt c m /\
+      (forall code key,
+         group_base m code key = zsum (map (fun x => group_base x code key) ss) /\
+         group_amount m code key = zsum (map (fun x => group_amount x code key) ss) /\
+         group_suramount m code key = zsum (map (fun x => group_suramount x code key) ss)) /\
+      (forall code, cat_amount m code = zsum (map (fun x => cat_amount x code) ss)) /\
+      val (tt_sum m) = zsum (map (fun x => val (tt_sum x)) ss)
+  end.
+Proof.
+  intros H ss F. apply payment_tax_is_merge_of_lines in H. fold ss in H.
+  destruct ss as [|d ds]; [exact H|].
+  inversion F as [|x y Wd Fd]; subst.
+  destruct (merge_all_componentwise c ds Fd d Wd) as (Wm & G & C & S).
+  exists (fold_left tt_merge ds d). split; [exact H|]. split; [exact Wm|].
+  cbn [map zsum fold_right]. split; [|split].
+  - intros code key. apply G.
+  - intros code. apply C.
+  - exact S.
+Qed.
